@@ -169,19 +169,20 @@ def walkDown (stop step : Int) : Nat → Int → List Nat
   | 0, _ => []
   | fuel + 1, i => if i > stop then i.toNat :: walkDown stop step fuel (i + step) else []
 
+/-- an optional slice bound: the default when omitted, clamped otherwise -/
+def sliceBound (n lower upper dflt : Int) : Option Int → Int
+  | none => dflt
+  | some s => clampIdx n lower upper s
+
 /-- `range(*slice(start, stop, step).indices(len))` (CPython `PySlice_AdjustIndices`); `none` for a zero step -/
 def sliceIndices (len : Nat) (start stop step : Option Int) : Option (List Nat) :=
   let st := step.getD 1
   let n : Int := len
   if st = 0 then none
   else if st > 0 then
-    let s := match start with | none => 0 | some s => clampIdx n 0 n s
-    let e := match stop with | none => n | some e => clampIdx n 0 n e
-    some (walkUp e st len s)
+    some (walkUp (sliceBound n 0 n n stop) st len (sliceBound n 0 n 0 start))
   else
-    let s := match start with | none => n - 1 | some s => clampIdx n (-1) (n - 1) s
-    let e := match stop with | none => -1 | some e => clampIdx n (-1) (n - 1) e
-    some (walkDown e st len s)
+    some (walkDown (sliceBound n (-1) (n - 1) (-1) stop) st len (sliceBound n (-1) (n - 1) (n - 1) start))
 
 /-- `auids[slice]` -/
 def sliceUids (au : List Nat) (start stop step : Option Int) : Option (List Nat) :=
@@ -246,6 +247,7 @@ def pyPos (len : Nat) (i : Int) : Option Nat :=
 inductive Got where
   | vals (vs : List Val)
   | one (v : Val)
+  deriving DecidableEq, Repr
 
 /-- `Arr.__getitem__` -/
 def getItem (v : Variant) (au : List Nat) (a : Arr) (k : Key) : Except Err Got :=
@@ -372,6 +374,69 @@ def grow (a : Arr) (newUids : List Nat) (newVals : Option Rhs) : Except Err Arr 
 
 /-- removal of agents from the active index (`People.remove_dead`): arrays are untouched -/
 def removeActive (au : List Nat) (dead : List Nat) : List Nat := au.filter (fun u => !dead.contains u)
+
+
+/-! ### One array through a history of growth, removal and assignment
+
+The machine the refinement theorem (`C11_refinement`) is about: an array registered with a population of `n`
+identifiers of which `au` are active.  An operation the code would reject leaves the state unchanged. -/
+
+/-- identifiers created by one `People.grow(k)` when `n` exist: `arange(n, n+k)` -/
+def newIds (n k : Nat) : List Nat := (List.range k).map (· + n)
+
+/-- the values a right-hand side denotes for `m` targets (total reading) -/
+def rhsVals (m : Nat) : Rhs → List Val
+  | .scalar v => List.replicate m v
+  | .list vs => if vs.length == m then vs else match vs with
+      | [v] => List.replicate m v
+      | _ => vs
+
+/-- the declared default, as the list of values the `k` new agents `us` must receive -/
+def defaultVals (a : Arr) (us : List Nat) : List Val := rhsVals us.length (defaultRhs a us)
+
+structure Hist where
+  au : List Nat
+  n : Nat
+  arr : Arr
+
+inductive HOp where
+  | grow (k : Nat)                          -- `People.grow(k)`
+  | remove (dead : List Nat)                -- deaths + `remove_dead`
+  | assign (us : List Nat) (rhs : Rhs)      -- `arr[ss.uids(us)] = rhs`
+
+def Hist.step (h : Hist) : HOp → Hist
+  | .grow k =>
+      match grow h.arr (newIds h.n k) none with
+      | .ok a' => { au := h.au ++ newIds h.n k, n := h.n + k, arr := a' }
+      | .error _ => h
+  | .remove dead => { h with au := removeActive h.au dead }
+  | .assign us rhs =>
+      match setItem codeVariant h.au h.arr (.uids us) rhs with
+      | .ok a' => { h with arr := a' }
+      | .error _ => h
+
+def Hist.run (h : Hist) (ops : List HOp) : Hist := ops.foldl Hist.step h
+
+/-- The reference: a total map from identifier to value plus the ordered active identifiers.  No storage, no
+    capacity, no reallocation. -/
+structure RefMap where
+  active : List Nat
+  n : Nat
+  m : Nat → Val
+
+def updMany (m : Nat → Val) : List Nat → List Val → (Nat → Val)
+  | u :: us, v :: vs => updMany (fun x => if x = u then v else m x) us vs
+  | _, _ => m
+
+def RefMap.step (dflt : List Nat → List Val) (r : RefMap) : HOp → RefMap
+  | .grow k => { active := r.active ++ newIds r.n k, n := r.n + k, m := updMany r.m (newIds r.n k) (dflt (newIds r.n k)) }
+  | .remove dead => { r with active := r.active.filter (fun u => !dead.contains u) }
+  | .assign us rhs => { r with m := updMany r.m us (rhsVals us.length rhs) }
+
+def RefMap.run (dflt : List Nat → List Val) (r : RefMap) (ops : List HOp) : RefMap := ops.foldl (RefMap.step dflt) r
+
+/-- what the reference answers for identifier `u`: its value if active, nothing otherwise -/
+def RefMap.lookup (r : RefMap) (u : Nat) : Option Val := if u ∈ r.active then some (r.m u) else none
 
 /-! ### `ss.uids` set algebra -/
 
